@@ -108,4 +108,44 @@ theorem chunks_eq {α : Type} (l : List α) (k : Nat) (h : 4 * k ≤ l.length) :
     have : 4 * (k + 1) = 4 * k + 4 := by omega
     rw [this, List.take_add]
 
+/-! ### `i128` split-lane arithmetic of `ntt120/vec_znx_big_avx.rs` -/
+open Vec128
+
+theorem sra_epi64_eq (v : W) (imm : BitVec 32) (h : imm ≤ 64#32) :
+    sra_epi64 v imm = (if imm = 64#32 then v.sshiftRight 63 else v.sshiftRight' (imm.zeroExtend 64)) := by
+  simp only [sra_epi64, srai_epi32_31, shuffle_epi32_F5, srl_epi64, sll_epi64, cvtsi64_si128, cmpeq_epi64, or_si256,
+    and_si256, allOnes]
+  bv_decide
+
+theorem add4_eq (a b : W128) : pairW (add4 (lo a) (hi a) (lo b) (hi b)) = a + b := by
+  simp only [pairW, join, add4, ugtOne, lo, hi, msb, add_epi64, sub_epi64, xor_si256, cmpgt_epi64, setzero_si256, allOnes]
+  bv_decide
+theorem sub4_eq (a b : W128) : pairW (sub4 (lo a) (hi a) (lo b) (hi b)) = a - b := by
+  simp only [pairW, join, sub4, ugtOne, lo, hi, msb, sub_epi64, xor_si256, cmpgt_epi64, setzero_si256, allOnes]
+  bv_decide
+theorem neg4_eq (a : W128) : pairW (neg4 (lo a) (hi a)) = -a := by
+  simp only [pairW, join, neg4, lo, hi, add_epi64, sub_epi64, xor_si256, cmpeq_epi64, setzero_si256, allOnes]
+  bv_decide
+theorem ext4_eq (a : W) : pairW (ext4 a) = sext a := by
+  simp only [pairW, join, ext4, sext, sra_epi64, srai_epi32_31, shuffle_epi32_F5, srl_epi64, sll_epi64, cvtsi64_si128,
+    cmpeq_epi64, or_si256, and_si256, allOnes]
+  bv_decide
+theorem ext4_fst (a : W) : (ext4 a).1 = lo (sext a) := by
+  simp only [ext4, lo, sext]
+  bv_decide
+theorem ext4_snd (a : W) : (ext4 a).2 = hi (sext a) := by
+  simp only [ext4, hi, sext, sra_epi64, srai_epi32_31, shuffle_epi32_F5, srl_epi64, sll_epi64, cvtsi64_si128,
+    cmpeq_epi64, or_si256, and_si256, allOnes]
+  bv_decide
+theorem join_lo_hi (a : W128) : join (lo a) (hi a) = a := by
+  simp only [join, lo, hi]
+  bv_decide
+
+/-- the `i64` and the `i128` rounding shifts agree on sign-extended inputs with two bits of head-room -/
+theorem mulPow2_i64_i128 (k v : W) (h1 : BitVec.sle (-63#64) k = true) (h2 : BitVec.slt k 0#64 = true)
+    (hv : BitVec.sle (-(1#64 <<< 62)) v = true ∧ BitVec.slt v (1#64 <<< 62) = true) :
+    (Ref.mulPow2Val k v).signExtend 128 = Ref128.mulPow2Assign k (v.signExtend 128) := by
+  simp only [Ref.mulPow2Val, Ref128.mulPow2Assign, rshl, rsar, rshl128, rsar128]
+  bv_decide
+
 end Avx
